@@ -1,7 +1,7 @@
 (* C20 — lazily loaded (virtual) trees behave exactly like materialised trees.
    Property theorems only.  consistent src m : src is a root-keyed store of the materialised tree m.
    vrel v m : v is m with some subtrees replaced by virtual nodes carrying their roots. *)
-Require Import RM.Base RM.Gindex RM.Tree RM.TreeProofs RM.Types RM.ModelCodec RM.ModelMut RM.VirtualProofs RM.VirtualViews RM.ModelStore RM.VirtualStore.
+Require Import RM.Base RM.Gindex RM.Tree RM.TreeProofs RM.Types RM.ModelCodec RM.ModelMut RM.VirtualProofs RM.VirtualViews RM.ModelStore RM.VirtualStore RM.ModelIters RM.ModelObj RM.VirtualReads.
 
 Theorem C20_root : forall H src v m, vrel H src v m -> root H v = root H m.
 Proof. exact vrel_root. Qed.
@@ -145,3 +145,24 @@ Print Assumptions C20_store_start.
 Print Assumptions C20_store_command.
 Print Assumptions C20_store_history.
 Print Assumptions C20_store_observed.
+
+(* reading: the three read-only iterators and object export give over the virtual tree exactly what they give over
+   the materialised tree (same elements / bytes / bits in the same order, same errors; iterated nodes related) *)
+Theorem C20_node_iter : forall H src av am depth len, vr H src av am ->
+  sim (Forall2 (vr H src)) (node_iter src av depth len) (node_iter src am depth len).
+Proof. exact vr_node_iter. Qed.
+
+Theorem C20_packed_iter : forall H src av am depth len e size, vr H src av am ->
+  packed_iter H src av depth len e size = packed_iter H src am depth len e size.
+Proof. exact vr_packed_iter. Qed.
+
+Theorem C20_bit_iter : forall H src av am depth len, vr H src av am -> bit_iter H src av depth len = bit_iter H src am depth len.
+Proof. exact vr_bit_iter. Qed.
+
+Theorem C20_export : forall H src t v m, vr H src v m -> to_obj H src t v = to_obj H src t m.
+Proof. exact vr_to_obj. Qed.
+
+Print Assumptions C20_node_iter.
+Print Assumptions C20_packed_iter.
+Print Assumptions C20_bit_iter.
+Print Assumptions C20_export.
